@@ -4,3 +4,19 @@ TRUST = "Trusted: Go toolchain, rapid v1.3.0, strconv/encoding/json as RFC 8259 
 claim("C01", "property-based round-trip testing (rapid value-tree generator with class-weighted hard leaves, kind-exact snapshot oracle) + coverage-guided fuzzing of the same generator",
       "Generated search: class-weighted value trees are serialised, re-parsed and compared with the generator's own tree by a kind-exact structural oracle that does not use the library's Equals, plus Equals in both directions and a second generation. Random search cannot prove the universal claim; it shows no counterexample among the counted cases and turned red on the seeded changes listed in DESIGN.md.",
       TRUST)
+
+claim("C02", "property-based testing against an independent strict RFC 8259 scanner (differential with encoding/json) + exhaustive sweep of all Unicode scalar values + coverage-guided fuzzing",
+      "Generated search: String() of class-weighted trees is read by a strict scanner written in the harness (cross-checked against encoding/json on every case) and the token tree is compared with the generator's tree; the finite sub-domain 'every Unicode scalar value in a value and in a key' is enumerated completely on every run. The rest is sampling.",
+      TRUST)
+claim("C03", "grammar-directed property-based generation of valid JSON with expected tree by construction, differential against a strict scanner and encoding/json; coverage-guided fuzzing of generator and raw bytes",
+      "Generated search over derivations of the JSON grammar (whitespace positions, escape spellings per character, number spellings, duplicate keys, deep chains); the parser's result is compared kind-exactly with the tree known by construction. Sampling only; lone surrogates, out-of-range numbers and scalar roots are outside the property and excluded by construction.",
+      TRUST)
+claim("C04", "property-based testing and fuzzing of totality/exclusivity/determinism on arbitrary bytes, exhaustive enumeration of (parser state x next byte), exhaustive prefixes and ill-formed UTF-8 injections per generated document",
+      "Generated search: random bytes, token soup and structural mutations of serialised documents go through all three entry points under a termination watchdog; per generated document every proper prefix and every (position x ill-formed sequence) injection is enumerated; every single byte is placed in every parser state once. Exhaustive only per document / per template, sampling otherwise.",
+      TRUST + " The watchdog (10 s for inputs that parse in microseconds) is the only clock use and can only turn a hang into a report.")
+claim("C16", "property-based testing with a canonical re-indenter oracle built from the output's own raw tokens + strict scanner + coverage-guided fuzzing",
+      "Generated search over trees x indent values weighted to the boundaries: output must be non-empty valid JSON denoting the generated tree and equal byte-for-byte to the canonical layout recreated by the harness; outside 0..10 the call must panic; container unchanged.",
+      TRUST)
+claim("C20", "property-based generation of documents with one injected syntax error at a known byte offset; oracle = newline count before that offset",
+      "Generated search: documents rendered with drawn newline layouts (LF/CRLF/blank lines/raw newline in strings/prefix text) and one injected error of each line-citing kind at drawn depth; the cited line must equal 1 + newlines before the detecting character recorded by the generator. Conditional property: accepted texts and errors without a line are counted, not judged.",
+      TRUST)
